@@ -37,6 +37,37 @@ def wrap(v, tc, tw):
     return v
 
 
+INT_TYPES = {'unsigned long': ('u', 64), 'size_t': ('u', 64), 'unsigned int': ('u', 32), 'unsigned': ('u', 32), 'int': ('s', 32), 'long': ('s', 64), 'short': ('s', 16),
+             'unsigned short': ('u', 16), 'char': ('s', 8), 'unsigned char': ('u', 8), 'signed char': ('s', 8), 'long long': ('s', 64), 'unsigned long long': ('u', 64)}
+
+
+def cast_value(cast_text, v):
+    """value v seen through the C-style rendering of a cast `(type)`: float -> integer truncates, integers wrap"""
+    t = cast_text.strip()[1:-1].strip() if cast_text.strip().startswith('(') else ''
+    if v is None or isinstance(v, (str, tuple)):
+        return v
+    if t in INT_TYPES:
+        tc, tw = INT_TYPES[t]
+        if isinstance(v, float):
+            if v != v or v in (float('inf'), float('-inf')):
+                return None
+            v = int(v)
+        if isinstance(v, bool):
+            v = int(v)
+        return wrap(v, tc, tw)
+    if t in ('float', 'double'):
+        try:
+            v = float(v)
+        except (TypeError, ValueError):
+            return None
+        if t == 'float':
+            return struct.unpack('f', struct.pack('f', v))[0]
+        return v
+    if t == 'bool':
+        return bool(v)
+    return v
+
+
 class Evaluator:
     def __init__(self, fn, model, depth=0):
         self.fn = fn
@@ -58,7 +89,7 @@ class Evaluator:
         r2 = re.sub(r'^\((?:unsigned |signed )?\w[\w ]*\)(?=[\w(])', '', r)
         if r2 in self.model:
             self.used.add(r2)
-            return self.model[r2]
+            return cast_value(r[:len(r) - len(r2)], self.model[r2])
         # indexed atoms: loop counters tracked along the walk are substituted by their current value,
         # positional accessors are read as subscripts of their container ('#alias' in the model)
         if 'local:' in r2 or self.model.get('#alias'):
